@@ -17,9 +17,9 @@ CLAIMED = {
          "locks counted are the ones foyer takes through the verif shims (all parking_lot/std locks of foyer-memory and foyer-storage); mea's async mutex in the tombstone log is not counted"),
  "C02": ("exploration", "5.C02", "seeded search over thread interleavings of 2-4 client threads (plus foyer's own fetch tasks and resize threads) against the real Cache for all five algorithms; per-key Wing-Gong linearizability search against an atomic register whose reads may miss; handles re-read at quiescence. Sampling, not proof.",
          "shuttle explores SeqCst only; histories <= 22 ops per key; capacity eviction modelled as 'reads may miss'"),
- "C03": ("fault_enumeration", "5.C03", "real workloads (all compression modes, tombstone log on/off, with reclaim so older generations exist) run to a graceful close; then one recovery per fault on the closed image: for pages that hold data x {bit flip, zeroed page, swap within a block, swap with the same page of another block, each older generation of the page} plus random multi-fault sets (thorough: every such page x every kind; quick: a sample); each recovery is a fresh simulated execution that reopens in Quiet mode and reads every key; also live corruption (reads return flipped / zeroed / misdirected bytes or fail) in running stores. A lookup must give a miss, an error or a value that was stored for that key at some time; reopen must complete.",
+ "C03": ("fault_enumeration", "5.C03", "real workloads (all compression modes, tombstone log on/off, with reclaim so older generations exist) run to a graceful close; then one recovery per fault on the closed image: for pages that hold data x {bit flip, zeroed page, swap within a block, swap with the same page of another block, each older generation of the page} plus structure-aware bit flips (one inside every field of the entry headers, blob indexes and tombstones an independent parser locates on the page) plus random multi-fault sets (thorough: every such page x every kind; quick: a sample); each recovery is a fresh simulated execution that reopens in Quiet mode and reads every key; also live corruption (reads return flipped / zeroed / misdirected bytes or fail) in running stores. A lookup must give a miss, an error or a value that was stored for that key at some time; reopen must complete.",
          "4 KiB pages are the unit of damage; live read faults are not injected while the store is opening"),
- "C04": ("fault_enumeration", "5.C04", "hybrid workloads of inserts, overwrites, deletes and waits end in process death; one recovery per crash point: the image is the issue-order prefix of the device write log plus a page-granular tear of the next write (thorough: every write boundary, every tear subset for writes of <= 6 pages, samples above; quick: 8 points per run); each recovery is a fresh simulated execution running the real recovery code, then every key is read. Always: miss or a version really inserted for that key. While no block was reclaimed before the crash point: the latest operation on the key that was handed to the disk tier, not shed, and covered by a completed wait() bounds the result (that version or newer; miss-or-newer for a delete with the tombstone log).",
+ "C04": ("fault_enumeration", "5.C04", "hybrid workloads of inserts, overwrites, deletes and waits end in process death; one recovery per crash point: the image is the issue-order prefix of the device write log plus a page-granular tear of the next write (thorough: every write boundary, every tear subset for writes of <= 6 pages, samples above; quick: 8 points per run); each recovery is a fresh simulated execution running the real recovery code, then every key is read. Always: miss or a version really inserted for that key. While no block was reclaimed before the crash point: the latest operation on the key that was handed to the disk tier, not shed, and covered by a completed wait() bounds the result (that version or newer; miss-or-newer for a delete with the tombstone log). Repeated cycles: after a share of the recoveries the recovered store is written again (new versions, deletes, evict_all + wait), dies a second time at a prefix of those writes and is recovered once more; versions flushed after the restart must supersede everything from before it.",
          "crash states are issue-order prefixes (the statement's wording); acknowledgements are taken from the recorded wait()/close() returns and the submission probes; a big-blob variant reaches two-page blob indexes"),
  "C05": ("exploration", "5.C05", "operation-by-operation reference-model check (single client, every step a quiescent point: usage/entries vs findable entries, eviction minimality and bound per insert from on_leave events, clear, resize, shard-capacity sum) plus multi-client runs checked at quiescence by an actual lookup sweep.",
          "the schedule dimension only matters for the multi-client and resize parts; weights 0..5, capacities 0..10, shards 1..4"),
@@ -27,8 +27,8 @@ CLAIMED = {
          "origin futures are harness futures; cancellation = abort of the spawned fetch task at its next poll"),
  "C07": ("exploration", "5.C07", "forced storage-writer inserts of exact page counts (1 page .. the per-entry maximum and one beyond), batches separated by waits or not (so blobs continue across batches and batches span blocks), buffers from barely one entry to several blocks, 1-3 flushers, reclaim and reuse, reopen; at every quiescent point three views must agree: the write log parsed by an independent parser (entries written in each block's current generation), the image scanned from offset 0 by the same independent parser following blob indexes (alignment, containment, disjointness), and foyer's own view (every key may_contains claims loads; after reopen every newest intact entry of the image that no tombstone covers is indexed).",
          "identity hasher; clear() is excluded (destroy() does not reset the flushers' write positions)"),
- "C08": ("exploration", "5.C08", "typed runs (u64/String keys; Vec<u8>, Bytes, String, bool and every numeric type at boundary values as values; lengths 0 .. beyond the per-entry maximum, compressible and incompressible, None/Zstd/Lz4) pushed through the real serializer, flush buffer, splitter and device with buffers down to less than one entry; read back from the write queue, from disk and after recovery: equal to what was stored (or to an older write of the same key), header lengths equal the encoded lengths, entries that do not fit are rejected as a whole (shed event, no index entry), serializer failures are the size-limit error.",
-         "the pure numeric codec table and the serde/bincode feature are exercised only through these values (no separate build with the serde feature)"),
+ "C08": ("exploration", "5.C08", "typed runs (u64/String keys; Vec<u8>, Bytes, String, bool and every numeric type at boundary values as values; lengths 0 .. beyond the per-entry maximum, compressible and incompressible, None/Zstd/Lz4) pushed through the real serializer, flush buffer, splitter and device with buffers down to less than one entry; read back from the write queue, from disk and after recovery: equal to what was stored (or to an older write of the same key), header lengths equal the encoded lengths, entries that do not fit are rejected as a whole (shed event, no index entry), serializer failures are the size-limit error. Two builds of the simulator share the budget: foyer's default codec and foyer with the `serde` feature (blanket bincode implementation of Code). Compression is set on the engine through a guarded hook (the store builder's setting never reaches the engine at this commit); for compressed entries the first value_len bytes of the body must decompress to exactly the encoded value.",
+         "the pure numeric codec table is exercised only through these values"),
  "C09": ("exploration", "5.C09", "sustained insert load of 3-8 device capacities (mixed sizes, overwrites, deletes) on devices down to the smallest configuration the engine accepts without warning, flushers 1-3, reclaimers 1-2, reinsertion none / a key class; device-level invariants on every applied write (no overlap within a block generation, blob index rewritten only with a superset, first write after a clean at the block start, no overlapping in-flight writes), C01's value oracle alongside, final wait()/close() must return (deadlock or step bound = violation), reinsertion-class entries loadable after their block's reclaim once the device is idle, single-flusher single-reclaimer runs reclaim in fill order.",
          "write-on-insertion policy only (no background hand-offs); fill order is issue order"),
  "C10": ("fault_enumeration", "5.C10", "histories with up to several tombstone-log pages of deletes (beyond the 256 slots of one page, below the log capacity), re-inserts, and 1-4 restart cycles (graceful, or process death after wait()) with further deletes in each cycle, flusher counts 1-3; after every restart each real key is read and judged by the value oracle: a key whose delete was flushed reads absent, a re-inserted key is not hidden.",
